@@ -182,6 +182,7 @@ def reference_call(world, ops, call_idx, perm):
     depends on) on a fresh tree in a process that never validated anything."""
     install_validator_order(perm)
     tree = _Tree(world)
+    snapshot(tree.built)
     value = _materialise(tree, ops, call_idx, world)
     verdict, result, _ = attempt(live_resolve(tree.built, ops[call_idx]["path"]), value)
     return verdict, norm(result) if verdict == "accept" else None
@@ -252,6 +253,13 @@ def exec_case(case, log, stats):
     if snapshot(fresh0) != snap0:
         stats.inc("degenerate_world")
         log.add("degenerate")
+        return None
+    if snapshot(live.built) != snap0 or snapshot(fresh0) != snap0:
+        # the observers themselves (repr / serialisers) changed what they
+        # observe: that is not validation's doing (the serialiser-order part
+        # of C09 judges it); nothing about the tree can be attributed here
+        stats.inc("observer_not_idempotent")
+        log.add("observer_not_idempotent")
         return None
     eq0 = equal_both_ways(live.built, fresh0)
     if eq0:
@@ -332,8 +340,10 @@ def exec_case(case, log, stats):
         else:
             first_outcome[call_idx] = (verdict, nres, result)
             live.results.setdefault(call_idx, (verdict, result))
-        # 4. same outcome as on a brand-new tree
+        # 4. same outcome as on a brand-new tree (observed once, like the live
+        #    one, so that only validation history distinguishes the two)
         fresh = _Tree(world)
+        snapshot(fresh.built)
         fvalue = _materialise(fresh, ops, call_idx, world)
         fverdict, fresult, _ = attempt(
             live_resolve(fresh.built, call["path"]), fvalue
